@@ -78,9 +78,15 @@ func vhArgAux() Auxiliary {
 }
 
 func vhArgOp() Operator {
-	switch nondetChoice(5) {
+	switch nondetChoice(7) {
 	case 0:
 		return nil
+	case 5: // typed nil pointers: an Operator interface that is not nil, yet holds nothing
+		var p *vhUserOp
+		return p
+	case 6:
+		var p *ComparisonOperator
+		return p
 	case 1:
 		return Eq
 	case 2:
